@@ -58,6 +58,26 @@ StackedCases ==
                    Member("type", "T2", "multi", Struct(<<Fld("interface", t), Fld("y", Opt(Plain("string")))>>), NoType) >>)
      : t \in Stacked}
 
+(* Mode "recursive": typedefs that refer to themselves or to each other.  Behind [] / [string] (also under ?) the type is     *)
+(* finitely sized and everything the properties say applies; by value (`?Node`, a member of type Node) it is not, and C09    *)
+(* does not speak about it (the parser and the formatter still do: C10, C11).                                                 *)
+NodeUse == Member("method", "Walk", "one", Struct(<<Fld("root", Ref("Node"))>>), Struct(<<Fld("nodes", Arr(Ref("Node"))), Fld("n", Plain("int"))>>))
+RecTypes ==
+  { <<Member("type", "Node", "none", Struct(<<Fld("name", Plain("string")), Fld("children", Arr(Ref("Node")))>>), NoType)>>,
+    <<Member("type", "Node", "none", Struct(<<Fld("name", Plain("string")), Fld("children", Opt(Arr(Ref("Node")))), Fld("links", Opt(Dict(Ref("Node"))))>>), NoType)>>,
+    <<Member("type", "Node", "one", Struct(<<Fld("kids", Dict(Ref("Node")))>>), NoType)>>,
+    <<Member("type", "Node", "none", Struct(<<Fld("children", Arr(Opt(Ref("Node")))), Fld("grid", Arr(Arr(Ref("Node"))))>>), NoType)>>,
+    <<Member("type", "Node", "none", Struct(<<Fld("sub", Struct(<<Fld("more", Arr(Ref("Node")))>>))>>), NoType)>>,
+    <<Member("type", "Node", "none", Struct(<<Fld("b", Arr(Ref("Other")))>>), NoType),
+      Member("type", "Other", "none", Struct(<<Fld("a", Opt(Arr(Ref("Node")))), Fld("x", Plain("int"))>>), NoType)>>,
+    <<Member("type", "Node", "none", Struct(<<Fld("b", Ref("Other"))>>), NoType),
+      Member("type", "Other", "none", Struct(<<Fld("a", Dict(Ref("Node")))>>), NoType)>>,
+    \* not finitely sized
+    <<Member("type", "Node", "none", Struct(<<Fld("next", Opt(Ref("Node")))>>), NoType)>>,
+    <<Member("type", "Node", "none", Struct(<<Fld("b", Ref("Other"))>>), NoType),
+      Member("type", "Other", "none", Struct(<<Fld("a", Opt(Ref("Node")))>>), NoType)>> }
+RecursiveCases == {Iface("one", tds \o <<NodeUse>>) : tds \in RecTypes}
+
 Templates(i) ==
   LET nm(p) == <<p, i>> IN   \* the harness joins prefix and index into a name
   { Member("method", "M", d, Struct(<<>>), Struct(<<>>)) : d \in {"none", "one"} }
@@ -121,7 +141,7 @@ RtCases ==
                     Member("error", "InterfaceNotFound", "none", Struct(<<Fld("ifname", Plain("string")), Fld("code", Plain("int"))>>), NoType) >>)
      : t \in RtPool}
 
-Universe == CASE Mode = "rt" -> RtCases [] Mode = "types" -> TypesCases [] Mode = "shapes" -> ShapesCases [] Mode = "dups" -> DupCases [] Mode = "names" -> NamesCases [] Mode = "stacked" -> StackedCases
+Universe == CASE Mode = "rt" -> RtCases [] Mode = "types" -> TypesCases [] Mode = "shapes" -> ShapesCases [] Mode = "dups" -> DupCases [] Mode = "names" -> NamesCases [] Mode = "stacked" -> StackedCases [] Mode = "recursive" -> RecursiveCases
 
 Init == ast \in Universe
 Next == UNCHANGED ast
@@ -134,5 +154,6 @@ TypesAllOk == \A i \in 1..Len(ast.members) : TypeOk(ast.members[i].a) /\ TypeOk(
 SetToSeq(S) == IF S = {} THEN <<>> ELSE IF Cardinality(S) = 1 THEN <<CHOOSE x \in S : TRUE>>
                ELSE LET a == CHOOSE x \in S : TRUE IN <<a>> \o <<CHOOSE y \in S \ {a} : TRUE>>
 
-EmitCase == Emit => PrintT(<<"REPLAY", ToJson([ast |-> ast, mode |-> Mode, dups |-> SetToSeq(Dups), valid |-> Valid(ast.members)])>>)
+EmitCase == Emit => PrintT(<<"REPLAY", ToJson([ast |-> ast, mode |-> Mode, dups |-> SetToSeq(Dups), valid |-> Valid(ast.members),
+                                                  finite |-> FinitelySized(ast.members)])>>)
 =============================================================================
